@@ -36,10 +36,29 @@ structure Cfg where
   serial : Bool := true     -- every call of the client function is an ordinary call made by the charging operation
                             -- itself (which holds the subscriber lock): no call site sits in a `go` statement, a deferred
                             -- call or a function literal, directly or through a helper function
+  connBound : Bool := true  -- the handler is registered for the connection its request dialled and ignores messages
+                            -- read from any other connection (`if c != from { return }`)
 deriving DecidableEq, Repr
 
 def Cfg.good (c : Cfg) : Bool :=
-  c.closesConn && c.ownChan && c.buffered && c.nonBlocking && decide (0 < c.timeoutMs) && c.syncDial && c.serial
+  c.closesConn && c.ownChan && c.buffered && c.nonBlocking && decide (0 < c.timeoutMs) && c.syncDial && c.serial &&
+  c.connBound
+
+/-- the facts `Cfg.good` stands for, by name -/
+structure Cfg.Good (c : Cfg) : Prop where
+  closesConn : c.closesConn = true
+  ownChan : c.ownChan = true
+  buffered : c.buffered = true
+  nonBlocking : c.nonBlocking = true
+  timeout : 0 < c.timeoutMs
+  syncDial : c.syncDial = true
+  serial : c.serial = true
+  connBound : c.connBound = true
+
+theorem Cfg.good_unpack {c : Cfg} (h : c.good = true) : c.Good := by
+  simp only [Cfg.good, Bool.and_eq_true, decide_eq_true_eq] at h
+  obtain ⟨⟨⟨⟨⟨⟨⟨h1, h2⟩, h3⟩, h4⟩, h5⟩, h6⟩, h7⟩, h8⟩ := h
+  exact ⟨h1, h2, h3, h4, h5, h6, h7, h8⟩
 
 inductive Outcome where
   | own (k : Nat)               -- request k acted upon the answer to request k
@@ -56,6 +75,9 @@ inductive Ev where
   | startSlow           -- the subscriber's next request begins; its connection set-up is in progress
   | dialDone (k : Nat)  -- the connection set-up of request k completes (TLS handshake and capabilities exchange done)
   | dialGiveUp          -- the request stops waiting for its dial (possible only when the dial runs in a task of its own)
+  | staleAnswer (j : Nat) -- the reader task of request j's connection, closed meanwhile, hands on a message it had already
+                        -- read: the state machine is shared by all connections of the subscriber, so the message goes to
+                        -- the handler registered NOW
 deriving DecidableEq, Repr
 
 structure St where
@@ -70,6 +92,7 @@ structure St where
   log : List Outcome := []         -- most recent first
   dialing : Option Nat := none     -- request whose connection is being set up and which waits for it
   lateDials : List Nat := []       -- connection set-ups still running although their request has given up on them
+  stale : List Nat := []           -- closed connections whose reader task may still hold one message it had read
 deriving Repr
 
 /-- the channel request `k` waits on -/
@@ -139,8 +162,24 @@ def step (cfg : Cfg) (s : St) : Ev → St
     | none => s
   | .ret =>
     match s.returning with
-    | some k => { s with returning := none, conns := if cfg.closesConn then s.conns.filter (· != k) else s.conns }
+    | some k => { s with returning := none, conns := if cfg.closesConn then s.conns.filter (· != k) else s.conns,
+                         stale := if cfg.closesConn then k :: s.stale else s.stale }
     | none => s
+  | .staleAnswer j =>
+    if !s.stale.contains j then s
+    else
+      let s := { s with stale := s.stale.erase j }
+      if cfg.connBound then s                                -- not the connection the registered handler was made for: ignored
+      else
+        match s.cur with
+        | some k =>
+          if chanOf cfg k = s.reg then
+            { s with cur := none, returning := some k, log := outcomeOf k j :: s.log }
+          else s
+        | none =>
+          if cfg.buffered && !hasMsg s.buf s.reg then { s with buf := (s.reg, j) :: s.buf }
+          else if cfg.nonBlocking then s
+          else { s with blocked := s.blocked + 1 }
 
 def run (cfg : Cfg) (s : St) (evs : List Ev) : St := evs.foldl (step cfg) s
 
